@@ -725,6 +725,7 @@ pub fn run_plans(ctx: &Ctx, plans: Vec<Plan>, oracle: &Oracle, wall_cap: Duratio
             "executions_by_deviations": st.by_deviation,
             "counters": st.counters,
             "step_cap_hits": st.step_cap_hits,
+            "violating_schedules_replayed_identically": st.violations_replayed,
         }));
         for s in &st.samples {
             if cov.samples.len() < 6 {
@@ -842,7 +843,7 @@ pub fn run_c04(tier: Tier) -> i32 {
     let mut storm_runs = Vec::new();
     for (variant, count, with_requests) in storm_variants(tier) {
         let (scn, script) = storm_scenario(variant, count, with_requests);
-        let mut chooser = NameChooser { names: script.clone(), cursor: 0 };
+        let mut chooser = NameChooser { names: script.clone(), cursor: 0, repeats: 0 };
         let t = run_once(&scn, &mut chooser).unwrap_or_else(|e| machinery_error(&format!("storm scenario: {e}")));
         let mut st = ExploreStats::default();
         for mut v in oracle_c04(&scn, &t, &mut st) {
@@ -882,7 +883,7 @@ pub fn storm_scenario(variant: &str, count: usize, with_requests: bool) -> (Scen
         }
         script.push("DeliverAll".into());
         if with_requests && k % 10 == 9 {
-            script.extend(["Issue(0)".to_string(), "DeliverAll".into(), "DeliverAll".into(), "Tick".into()]);
+            script.extend(["Issue(0)".to_string(), "DeliverAll".into(), "DeliverAll".into(), "Tick*".into()]);
         }
     }
     scn.notify_budget = script.iter().filter(|x| x.starts_with("Notify")).count();
